@@ -32,7 +32,16 @@ fn main() {
     }
     if args[1] == "C01" && args[2] == "--probe" {
         // debugging aid: frv C01 --probe <pattern> <text>
-        let (pat, text) = (&args[3], args.get(4).cloned().unwrap_or_default());
+        let (pat, mut text) = (&args[3], args.get(4).cloned().unwrap_or_default());
+        if let Some(f) = text.strip_prefix('@') {
+            text = std::fs::read_to_string(f).expect("text file");
+            let t0 = Instant::now();
+            let re = fancy_regex::Regex::new(pat).expect("compiles");
+            println!("find: {:?} after {:?}", re.find(&text).map(|m| m.map(|m| (m.start(), m.end()))), t0.elapsed());
+            let t0 = Instant::now();
+            println!("find_iter items: {:?} after {:?}", re.find_iter(&text).take(5).map(|m| m.map(|m| (m.start(), m.end())).map_err(|e| e.to_string())).collect::<Vec<_>>(), t0.elapsed());
+            return;
+        }
         match frv::engine::build(pat) {
             frv::engine::Built::Ok(re) => {
                 println!("vm={} captures_len={} names={:?}", frv::engine::is_vm(&re), re.captures_len(), re.capture_names().collect::<Vec<_>>());
